@@ -1175,7 +1175,12 @@ class MetaModel(object):
             raise MetaModelException('A class with the name %s is already defined' % kind)
 
         metaclass = MetaClass(kind, self)
+        unames = set()
         for name, ty in attributes:
+            if name.upper() in unames:
+                raise MetaModelException('The class %s has several attributes named %s' % (kind, name))
+            
+            unames.add(name.upper())
             metaclass.append_attribute(name, ty)
             
         self.metaclasses[ukind] = metaclass
